@@ -152,6 +152,36 @@ fn pred_shape(p: &Predicate) -> String {
     }
 }
 
+fn has_bool(e: &Expr, ev: &Event) -> bool {
+    let functions: FxHashMap<String, UserFunction> = FxHashMap::default();
+    let bindings: FxHashMap<String, Value> = FxHashMap::default();
+    eval_expr_with_functions(e, ev, SequenceContext::empty(), &functions, &bindings)
+        .and_then(|v| v.as_bool())
+        .is_some()
+}
+
+/// Known-finding class C09-not-over-valueless computed with the real evaluator (Cmp/Classes.v
+/// not_over_valueless is the reference; this copy is used for shrinking and cross-checked).
+fn not_over_valueless(e: &Expr, ev: &Event) -> bool {
+    match e {
+        Expr::Unary { op: UnaryOp::Not, expr } => !has_bool(expr, ev) || not_over_valueless(expr, ev),
+        Expr::Binary { op: BinOp::And | BinOp::Or, left, right } => not_over_valueless(left, ev) || not_over_valueless(right, ev),
+        _ => false,
+    }
+}
+
+/// Known-finding class C09-or-with-valueless-side (reference: Cmp/Classes.v or_with_valueless).
+fn or_with_valueless(e: &Expr, ev: &Event) -> bool {
+    match e {
+        Expr::Binary { op: BinOp::Or, left, right } => {
+            !has_bool(left, ev) || !has_bool(right, ev) || or_with_valueless(left, ev) || or_with_valueless(right, ev)
+        }
+        Expr::Binary { op: BinOp::And, left, right } => or_with_valueless(left, ev) || or_with_valueless(right, ev),
+        Expr::Unary { op: UnaryOp::Not, expr } => or_with_valueless(expr, ev),
+        _ => false,
+    }
+}
+
 fn filter(req: &J) -> J {
     let e = expr_from_json(&req["expr"]);
     let functions: FxHashMap<String, UserFunction> = FxHashMap::default();
@@ -164,8 +194,10 @@ fn filter(req: &J) -> J {
     }
     let pred = expr_to_sase_predicate(&e);
     let mut res = Vec::new();
+    let mut flags = Vec::new();
     for evj in req["events"].as_array().unwrap() {
         let ev = event_from_json(evj);
+        flags.push(json!([not_over_valueless(&e, &ev), or_with_valueless(&e, &ev)]));
         // crates/varpulis-runtime/src/engine/pipeline.rs RuntimeOp::WhereExpr
         let w = eval_expr_with_functions(&e, &ev, SequenceContext::empty(), &functions, &bindings)
             .and_then(|v| v.as_bool())
@@ -177,7 +209,7 @@ fn filter(req: &J) -> J {
         };
         res.push(json!([w, s]));
     }
-    json!({"acc": res, "pred": pred.as_ref().map(pred_shape)})
+    json!({"acc": res, "flags": flags, "pred": pred.as_ref().map(pred_shape)})
 }
 
 fn engine(req: &J) -> J {
